@@ -12,7 +12,7 @@ use rand::Rng;
 use serde::de;
 #[cfg(feature = "config_parsing")]
 use std::fmt;
-use std::sync::RwLock;
+use std::{convert::TryFrom, sync::RwLock};
 
 use crate::append::rolling_file::{policy::compound::trigger::Trigger, LogFile};
 #[cfg(feature = "config_parsing")]
@@ -201,7 +201,12 @@ impl TimeTrigger {
         let next_time = TimeTrigger::get_next_time(current, config.interval, config.modulate);
         let next_roll_time = if config.max_random_delay > 0 {
             let random_delay = rand::thread_rng().gen_range(0..config.max_random_delay);
-            next_time + Duration::seconds(random_delay as i64)
+            i64::try_from(random_delay)
+                .ok()
+                .and_then(Duration::try_seconds)
+                .and_then(|delay| next_time.checked_add_signed(delay))
+                .filter(|time| time.year() <= Self::LAST_YEAR)
+                .unwrap_or_else(|| Self::far_future(current))
         } else {
             next_time
         };
@@ -236,79 +241,95 @@ impl TimeTrigger {
         after + Duration::days(1)
     }
 
+    // The last year a rotation is scheduled in. An interval or a random delay that leads
+    // beyond it (or beyond what the arithmetic can express) never elapses in practice: the
+    // rotation is then scheduled at the start of that year's last day.
+    const LAST_YEAR: i32 = 9999;
+
+    fn far_future(after: DateTime<Local>) -> DateTime<Local> {
+        let time = NaiveDate::from_ymd_opt(Self::LAST_YEAR, 12, 31)
+            .map(|date| NaiveDateTime::new(date, chrono::NaiveTime::MIN))
+            .expect("a valid date");
+        Self::resolve_local(time, after)
+    }
+
     fn get_next_time(
         current: DateTime<Local>,
         interval: TimeTriggerInterval,
         modulate: bool,
     ) -> DateTime<Local> {
+        match Self::next_local_time(current, interval, modulate) {
+            Some(time) if time.year() <= Self::LAST_YEAR => Self::resolve_local(time, current),
+            _ => Self::far_future(current),
+        }
+    }
+
+    // The wall-clock time of the next rotation, `None` if it cannot be expressed.
+    fn next_local_time(
+        current: DateTime<Local>,
+        interval: TimeTriggerInterval,
+        modulate: bool,
+    ) -> Option<NaiveDateTime> {
         // All calendar arithmetic is done on the local wall-clock time, so that the result
         // stays on a unit boundary when the UTC offset changed earlier in the current unit.
         let date = current.date_naive();
         let midnight = NaiveDateTime::new(date, chrono::NaiveTime::MIN);
         let year = current.year();
         if let TimeTriggerInterval::Year(n) = interval {
-            let n = n as i32;
+            let n = i32::try_from(n).ok()?;
             let increment = if modulate { n - year % n } else { n };
-            let year_new = year + increment;
-            let time = NaiveDate::from_ymd_opt(year_new, 1, 1)
-                .map(|date| NaiveDateTime::new(date, chrono::NaiveTime::MIN))
-                .expect("year out of range");
-            return Self::resolve_local(time, current);
+            let year_new = year.checked_add(increment)?;
+            return NaiveDate::from_ymd_opt(year_new, 1, 1)
+                .map(|date| NaiveDateTime::new(date, chrono::NaiveTime::MIN));
         }
 
         if let TimeTriggerInterval::Month(n) = interval {
             let month0 = current.month0();
-            let n = n as u32;
+            let n = u32::try_from(n).ok()?;
             let increment = if modulate { n - month0 % n } else { n };
-            let num_months = (year as u32) * 12 + month0;
-            let num_months_new = num_months + increment;
-            let year_new = (num_months_new / 12) as i32;
+            let num_months = u32::try_from(year).ok()?.checked_mul(12)? + month0;
+            let num_months_new = num_months.checked_add(increment)?;
+            let year_new = i32::try_from(num_months_new / 12).ok()?;
             let month_new = (num_months_new) % 12 + 1;
-            let time = NaiveDate::from_ymd_opt(year_new, month_new, 1)
-                .map(|date| NaiveDateTime::new(date, chrono::NaiveTime::MIN))
-                .expect("year out of range");
-            return Self::resolve_local(time, current);
+            return NaiveDate::from_ymd_opt(year_new, month_new, 1)
+                .map(|date| NaiveDateTime::new(date, chrono::NaiveTime::MIN));
         }
 
         if let TimeTriggerInterval::Week(n) = interval {
             let week0 = current.iso_week().week0() as i64;
             let weekday = current.weekday().num_days_from_monday() as i64; // Monday is the first day of the week
             let increment = if modulate { n - week0 % n } else { n };
-            let time = midnight + Duration::weeks(increment) - Duration::days(weekday);
-            return Self::resolve_local(time, current);
+            return midnight
+                .checked_add_signed(Duration::try_weeks(increment)?)?
+                .checked_sub_signed(Duration::days(weekday));
         }
 
         if let TimeTriggerInterval::Day(n) = interval {
             let ordinal0 = current.ordinal0() as i64;
             let increment = if modulate { n - ordinal0 % n } else { n };
-            return Self::resolve_local(midnight + Duration::days(increment), current);
+            return midnight.checked_add_signed(Duration::try_days(increment)?);
         }
 
-        let hour = current.hour();
+        let hour = current.hour() as i64;
         if let TimeTriggerInterval::Hour(n) = interval {
-            let increment = if modulate { n - (hour as i64) % n } else { n };
-            let time = midnight + Duration::hours(hour as i64 + increment);
-            return Self::resolve_local(time, current);
+            let increment = if modulate { n - hour % n } else { n };
+            return midnight.checked_add_signed(Duration::try_hours(hour.checked_add(increment)?)?);
         }
 
-        let min = current.minute();
+        let min = current.minute() as i64;
         if let TimeTriggerInterval::Minute(n) = interval {
-            let increment = if modulate { n - (min as i64) % n } else { n };
-            let time =
-                midnight + Duration::hours(hour as i64) + Duration::minutes(min as i64 + increment);
-            return Self::resolve_local(time, current);
+            let increment = if modulate { n - min % n } else { n };
+            return (midnight + Duration::hours(hour))
+                .checked_add_signed(Duration::try_minutes(min.checked_add(increment)?)?);
         }
 
-        let sec = current.second();
+        let sec = current.second() as i64;
         if let TimeTriggerInterval::Second(n) = interval {
-            let increment = if modulate { n - (sec as i64) % n } else { n };
-            let time = midnight
-                + Duration::hours(hour as i64)
-                + Duration::minutes(min as i64)
-                + Duration::seconds(sec as i64 + increment);
-            return Self::resolve_local(time, current);
+            let increment = if modulate { n - sec % n } else { n };
+            return (midnight + Duration::hours(hour) + Duration::minutes(min))
+                .checked_add_signed(Duration::try_seconds(sec.checked_add(increment)?)?);
         }
-        panic!("Should not reach here!");
+        None
     }
 
     /// Verification hook: the schedule computation.
